@@ -624,20 +624,20 @@ func (fc *FnCtx) loopSpec(n ast.Node) loopInfo {
 
 // modifiedIn collects the variables assigned (and whether the heap / objects may be written) in nodes.
 type modSet struct {
-	vars    map[types.Object]bool
-	heap    bool
-	objs    bool // any object field written or unknown call made
-	calls   bool
-	wslices map[types.Object]bool // slice variables written through
+	vars         map[types.Object]bool
+	heap         bool
+	objs         bool // any object field written or unknown call made
+	calls        bool
+	wslices      map[types.Object]bool // slice variables written through
 	unknownWrite bool
-	nonIdx  map[types.Object]bool // written through by append/copy (not only by index)
-	foreign map[types.Object]bool // slice variables assigned from something other than themselves
-	paths   []string // selector paths assigned in the loop (or listed under on-call modifies)
-	ghostsAll bool
-	cells   bool // cells of a cell-encoded struct slice may be written
-	objsUnknown bool // an object is written through something other than a plain field path
-	ghosts  map[string]bool // ghost variables assigned by on-call effects / nested iter resets inside the nodes
-	node    ast.Node
+	nonIdx       map[types.Object]bool // written through by append/copy (not only by index)
+	foreign      map[types.Object]bool // slice variables assigned from something other than themselves
+	paths        []string              // selector paths assigned in the loop (or listed under on-call modifies)
+	ghostsAll    bool
+	cells        bool            // cells of a cell-encoded struct slice may be written
+	objsUnknown  bool            // an object is written through something other than a plain field path
+	ghosts       map[string]bool // ghost variables assigned by on-call effects / nested iter resets inside the nodes
+	node         ast.Node
 }
 
 func (fc *FnCtx) modified(nodes ...ast.Node) *modSet {
